@@ -113,7 +113,12 @@ def run(pid, spec):
                     continue
                 new = [k for k in keys if k not in known]
                 if expect == "fire":
-                    if new or extra:
+                    want = meta.get("expect_key")
+                    if want and not any(k.startswith(want) for k in new):
+                        # the control names the rule that has to report it: another rule firing does not count
+                        result["detail"].append({"seed": sid, "status": "MISSED by %s" % want, "keys": new[:5]})
+                        result["errors"].append("positive control failed: change %s must be reported by %s*; reported: %s" % (sid, want, new[:3] or "nothing"))
+                    elif new or extra:
                         result["fired"] += 1
                         result["detail"].append({"seed": sid, "status": "fired", "keys": new[:5]})
                     else:
